@@ -6,6 +6,7 @@ import itertools
 
 from mc import lib
 
+CASE_TIMEOUT_S = 600      # wall-clock horizon per state (states of this check bundle many sub-states; generous for loaded machines)
 PROPERTY = 'C16'
 RULE = ('full product: every target string over {A,K} of length 0..L x every query of length 1..4 x ignore_mods; '
         'modified layer: every target of length<=Lm with a tagged modification at every residue/terminus x every '
